@@ -11,16 +11,17 @@ Max(a, b) == IF a > b THEN a ELSE b
 TraceInit == /\ tid \in 1 .. Len(Traces) /\ l = 1 /\ TLCSet(tid, 1)
              /\ sc = [ne |-> TR.ne, nd |-> TR.nd, lineage |-> [k \in 1 .. TR.nd |-> ToSet(TR.lineage[k])],
                       held |-> ToSet(TR.held), ordered |-> TR.ordered]
-             /\ delivered = <<>> /\ consumed = {} /\ fired = <<>>
+             /\ delivered = <<>> /\ consumed = {} /\ fired = <<>> /\ failed = {}
 Event(ev) ==
     CASE ev.ev = "Deliver" -> Deliver(ev.k)
       [] ev.ev = "Consume" -> Consume(ev.k)
       [] ev.ev = "Fire" -> Fire(ev.e)
+      [] ev.ev = "Fail" -> Fail(ev.k)
       [] ev.ev = "End" -> Complete /\ UNCHANGED vars
       [] OTHER -> FALSE
 \* a property that fails is reported with its name; the trace is not followed further
 Verdict == IF ~OnlyExpected THEN "OnlyExpected" ELSE IF ~NoDuplicate THEN "NoDuplicate" ELSE IF ~InOrder THEN "InOrder"
-           ELSE IF ~CbSafe THEN "CbSafe" ELSE IF ~FiredOnce THEN "FiredOnce" ELSE ""
+           ELSE IF ~RaisedNeverFires THEN "RaisedNeverFires" ELSE IF ~CbSafe THEN "CbSafe" ELSE IF ~FiredOnce THEN "FiredOnce" ELSE ""
 TraceNext ==
     /\ l <= Len(T)
     /\ IF Verdict # "" THEN PrintT(<<"BROKEN", TR.id, l - 1, Verdict>>) /\ FALSE
